@@ -275,7 +275,11 @@ class DimArray(AbstractDimArray, OpMixin, GetSetDelAttrMixin):
             axes = dim_array.axes
 
         elif values is not None:
-            values = np.array(values, copy=copy, dtype=dtype)
+            if copy:
+                values = np.array(values, dtype=dtype)
+            else:
+                # no copy unless needed (np.array(..., copy=False) now raises if a copy is needed)
+                values = np.asarray(values, dtype=dtype)
 
         #
         # Initialize the axes
